@@ -1144,6 +1144,47 @@ wavex_write_fmt_chunk (SF_PRIVATE *psf)
 } /* wavex_write_fmt_chunk */
 
 
+static uint32_t
+wav_cue_name_len (const SF_CUE_POINT * cue_point)
+{	uint32_t len = 0 ;
+
+	/* The name need not be zero terminated. */
+	while (len < sizeof (cue_point->name) - 1 && cue_point->name [len])
+		len ++ ;
+
+	return len ;
+} /* wav_cue_name_len */
+
+/*
+** The names of the cue points go into a LIST chunk of type 'adtl' that follows the
+** 'cue ' chunk : one 'labl' sub-chunk (cue point id, zero terminated text) per name.
+*/
+static void
+wav_write_cue_names (SF_PRIVATE *psf)
+{	uint32_t k, len, list_size = 4 ;
+
+	for (k = 0 ; k < psf->cues->cue_count ; k++)
+	{	len = wav_cue_name_len (&(psf->cues->cue_points [k])) ;
+		if (len > 0)
+			list_size += 8 + 4 + len + 1 + ((len + 1) & 1) ;
+		} ;
+
+	if (list_size == 4)
+		return ;
+
+	psf_binheader_writef (psf, "m4m", BHWm (LIST_MARKER), BHW4 (list_size), BHWm (adtl_MARKER)) ;
+
+	for (k = 0 ; k < psf->cues->cue_count ; k++)
+	{	len = wav_cue_name_len (&(psf->cues->cue_points [k])) ;
+		if (len == 0)
+			continue ;
+
+		psf_binheader_writef (psf, "m44b", BHWm (labl_MARKER), BHW4 (4 + len + 1), BHW4 (psf->cues->cue_points [k].indx),
+					BHWv (psf->cues->cue_points [k].name), BHWz (len)) ;
+		psf_binheader_writef (psf, "z", BHWz (1 + ((len + 1) & 1))) ;
+		} ;
+} /* wav_write_cue_names */
+
 static int
 wav_write_header (SF_PRIVATE *psf, int calc_length)
 {	sf_count_t	current ;
@@ -1224,6 +1265,8 @@ wav_write_header (SF_PRIVATE *psf, int calc_length)
 			psf_binheader_writef (psf, "44m444", BHW4 (psf->cues->cue_points [k].indx), BHW4 (psf->cues->cue_points [k].position),
 						BHWm (psf->cues->cue_points [k].fcc_chunk), BHW4 (psf->cues->cue_points [k].chunk_start),
 						BHW4 (psf->cues->cue_points [k].block_start), BHW4 (psf->cues->cue_points [k].sample_offset)) ;
+
+		wav_write_cue_names (psf) ;
 		} ;
 
 	if (psf->instrument != NULL)
